@@ -147,6 +147,8 @@ def run(prop, tier, seed):
     if prop == "C13":
         run.model_check("MC_Locations", "MC_Locations_n5.cfg")
         run.model_check("MC_CircularRecord", "Neg_CircularRecord.cfg", expect_violation="C13_TrackFollows")
+    if prop == "C15":
+        run.model_check("MC_Slices", "MC_Slices.cfg")       # theorems about the slice operators (evaluated as ASSUMEs)
     if prop in ("C13", "C14"):
         rd.replay_transitions(run, "MC_CircularRecord_replay_quick.cfg" if q else "MC_CircularRecord_replay_thorough.cfg")
     chains = op_chains(rng, q, prop) + exhaustive_small(rng, prop)
